@@ -169,6 +169,26 @@ pub fn run(ctx: &Ctx) -> Report {
                 if typed >= 1 {
                     o.push(("path_typed", for_type!(typed, T => all(shapefile::read_shapes_as::<_, T>(&path)))));
                 }
+                // the complete reader on the same foreign file, next to a table of n rows (row i
+                // holds i): every record, null shapes included, comes back with its own row
+                if let Some(n) = field(line, "n").and_then(|v| v.parse::<usize>().ok()) {
+                    let dbf_path = format!("{}/{}.dbf", dir, name);
+                    let wrote = (|| -> Result<(), Error> {
+                        let mut w = crate::e_c10::table_builder().build_with_file_dest(&dbf_path)?;
+                        for i in 0..n {
+                            w.write_record(&crate::e_c08::good_row(i))?;
+                        }
+                        Ok(())
+                    })();
+                    if wrote.is_ok() {
+                        let pairs: Vec<Result<Shape, Error>> = match shapefile::read(&path) {
+                            Err(e) => vec![Err(e)],
+                            Ok(v) => v.into_iter().enumerate().map(|(i, (s, row))| if crate::e_c08::row_tag(&row) == Some(i) { Ok(s) } else { Err(Error::InvalidShapeRecordSize) }).collect(),
+                        };
+                        o.push(("path_read_pairs", items(pairs.into_iter(), cap)));
+                    }
+                    let _ = std::fs::remove_file(&dbf_path);
+                }
             }
             if typed >= 1 {
                 if let Ok(rd) = ShapeReader::new(Src::new(shp.clone())) {
